@@ -791,7 +791,7 @@ func (s *sim) Next(rng *simcore.RNG) simcore.Op {
 	if commitActive && s.commitParked.Load() {
 		w[3] = 30
 	}
-	if !s.lockHeld() && s.mutexW == 0 {
+	if !s.lockHeld() && s.mutexW == 0 && !s.tainted && s.env.Checking("C12") {
 		w[4], w[5] = 6, 6
 	}
 	if s.idle() {
@@ -954,13 +954,13 @@ func (s *sim) Apply(op simcore.Op) bool {
 		s.settle()
 		e.Count("op.rel")
 	case "reap":
-		if s.lockHeld() || s.mutexW > 0 || s.tainted {
+		if s.lockHeld() || s.mutexW > 0 || s.tainted || !e.Checking("C12") {
 			return false
 		}
 		s.checkReapMaxTxs(op.Int("n"))
 		e.Count("op.reap")
 	case "reapbg":
-		if s.lockHeld() || s.mutexW > 0 || s.tainted {
+		if s.lockHeld() || s.mutexW > 0 || s.tainted || !e.Checking("C12") {
 			return false
 		}
 		s.checkReapBytesGas(op.Int64("bytes"), op.Int64("gas"))
@@ -1266,7 +1266,11 @@ func (s *sim) after(op simcore.Op) bool {
 	s.mu.Unlock()
 	for _, p := range pan {
 		e.Count("probe.panic")
-		e.Fail("C12", s.vn+"-panic", "%s: mempool code panicked: %s", s.vn, p)
+		prop := "C12"
+		if !e.Checking("C12") {
+			prop = "C05"
+		}
+		e.Fail(prop, s.vn+"-panic", "%s: mempool code panicked: %s", s.vn, p)
 	}
 	// 1. requests that arrived, a commit that finished
 	s.absorb()
@@ -1334,6 +1338,21 @@ func (s *sim) reapAll() ([]int, types.Txs) {
 func (s *sim) observe() {
 	e := s.env
 	if s.tainted {
+		return
+	}
+	if !e.Checking("C12") {
+		// C05-only run: just keep the workload generator informed
+		all := s.mp.ReapMaxTxs(-1)
+		s.lastObs = s.lastObs[:0]
+		seen := map[int]bool{}
+		for _, tx := range all {
+			if i := s.txIndex(tx); i >= 0 && !seen[i] {
+				seen[i] = true
+				s.lastObs = append(s.lastObs, i)
+			}
+		}
+		e.Logf(" pool %v size=%d bytes=%d", s.lastObs, s.mp.Size(), s.mp.SizeBytes())
+		s.admit, s.admitV, s.delivNew, s.justCom = nil, map[int]verdict{}, map[int]bool{}, nil
 		return
 	}
 	idx, all := s.reapAll()
@@ -1631,7 +1650,7 @@ func (s *sim) Finish() {
 	if s.env.Failed() {
 		return
 	}
-	if !s.lockHeld() && s.mutexW == 0 && !s.tainted {
+	if !s.lockHeld() && s.mutexW == 0 && !s.tainted && s.env.Checking("C12") {
 		s.checkReapMaxTxs(-1)
 		s.checkReapBytesGas(-1, -1)
 		for _, a := range s.subs {
